@@ -146,8 +146,10 @@ Of1(op, w, v, r, c) ==
 ShiftResult(op, w, v, cin, n, vc) ==
   IF n = 0 THEN R(v, 0, 0, 0)
   ELSE LET r == vc[1]  c == vc[2]
-           o == IF n = 1 THEN B(Of1(op, w, v, r, c), OF) ELSE 0
-           odef == IF n = 1 THEN OF ELSE 0
+           \* "behave as that many single-bit steps ... OF as defined for a count of 1": the OF of the last step.
+           \* Only SHR's rule looks at the value before the step: after the first step its top bit is 0.
+           o == IF op = "shr" THEN B(n = 1 /\ Msb(w, v) = 1, OF) ELSE B(Of1(op, w, v, r, c), OF)
+           odef == OF
        IN IF IsShift(op)
           THEN R(r, B(c = 1, CF) + SZP(w, r) + o, CF + SF + ZF + PF + odef, AF + (OF - odef))
           ELSE R(r, B(c = 1, CF) + o, CF + odef, OF - odef)
